@@ -3,13 +3,24 @@
 import sys, json
 pid = sys.argv[1]
 n = sys.argv[2] if len(sys.argv) > 2 else "2"
+sfx = sys.argv[3] if len(sys.argv) > 3 else ""
 for l in open('/verif/properties.jsonl'):
   p = json.loads(l)
   if p['id'] == pid:
     break
+import glob, os
+tried = []
+for m in sorted(glob.glob('/verif/seeded/%s-*/meta.json' % pid)):
+  try:
+    tried.append(json.load(open(m)).get('summary') or '')
+  except Exception:
+    pass
+ALREADY = ""
+if tried and os.environ.get("SEED_ROUND2"):
+  ALREADY = "\nOther developers have ALREADY tried the following changes for this property; do NOT repeat them or close variants of them - find different root causes, in different functions or mechanisms where you can:\n" + "\n".join("  - " + t for t in tried if t) + "\n"
 print(f"""You are helping to evaluate a verification effort by playing the role of a developer who introduces a subtle regression.
 
-Project: aleph2c/miros, a Python UML statechart library (hierarchical state machine event processor, threaded active objects, pub-sub fabric, timed events). You have your OWN scratch git worktree of it at /tmp/seed/wt_{pid} . Work ONLY inside /tmp/seed/wt_{pid} and write your deliverables to /tmp/seed/out_{pid}/ . Do NOT read or touch /repo or /verif (they are off limits; your work must be independent of them). There is no network.
+Project: aleph2c/miros, a Python UML statechart library (hierarchical state machine event processor, threaded active objects, pub-sub fabric, timed events). You have your OWN scratch git worktree of it at /tmp/seed/wt_{pid}{sfx} . Work ONLY inside /tmp/seed/wt_{pid}{sfx} and write your deliverables to /tmp/seed/out_{pid}{sfx}/ . Do NOT read or touch /repo or /verif (they are off limits; your work must be independent of them). There is no network.
 
 The property that should hold for this library ({p['id']}: {p['title']}):
 
@@ -17,19 +28,20 @@ The property that should hold for this library ({p['id']}: {p['title']}):
 
   It quantifies over: {p['quantifier']['text']}
 
-Your task: produce {n} DIFFERENT changes (different root causes, each a separate patch) to the library source under /tmp/seed/wt_{pid}/miros/ such that, for each change:
+{ALREADY}
+Your task: produce {n} DIFFERENT changes (different root causes, each a separate patch) to the library source under /tmp/seed/wt_{pid}{sfx}/miros/ such that, for each change:
   1. the library still imports/compiles and the existing test suite still passes:
-       cd /tmp/seed/wt_{pid} && PYTHONPATH=/tmp/seed/wt_{pid} /venv/bin/python -m pytest -q -p no:cacheprovider --timeout=900
+       cd /tmp/seed/wt_{pid}{sfx} && PYTHONPATH=/tmp/seed/wt_{pid}{sfx} /venv/bin/python -m pytest -q -p no:cacheprovider --timeout=900
      (test/crypto_test.py::test_cryptography fails on the untouched tree too and comprehensive_hsm_test test_group_4 / test_group_14 are known flaky; ignore those three. Everything else that passes on the untouched tree must still pass. The suite takes about a minute.)
   2. the property above is really broken by the change: some input / history / schedule exists on which the changed library violates the statement;
   3. the breakage needs something SPECIFIC to manifest - a particular multi-step sequence of operations, an unusual input or chart shape, a particular depth, a particular interleaving, or two cooperating edits that each look fine alone - and is NOT something that ordinary simple use would expose at once. Make it look like a plausible slip a maintainer could make (an off-by-one, a wrong comparison, a dropped step in one branch, a stale variable, a reordered pair of statements, an over-eager optimisation), not sabotage, and keep it small.
   4. a demonstration: a small standalone Python program demo_<k>.py (no pytest needed; run as: PYTHONPATH=<tree> /venv/bin/python demo_<k>.py) that uses only the public behaviour of the library, exits 0 on the untouched tree and exits non-zero (with a short message saying what went wrong) on the changed tree.
 
-Deliverables in /tmp/seed/out_{pid}/ for k = 1..{n}:
-  patch_<k>.diff   (output of `git -C /tmp/seed/wt_{pid} diff` for change k alone, relative to the untouched HEAD; each patch must apply on its own to a clean tree with `git apply`)
+Deliverables in /tmp/seed/out_{pid}{sfx}/ for k = 1..{n}:
+  patch_<k>.diff   (output of `git -C /tmp/seed/wt_{pid}{sfx} diff` for change k alone, relative to the untouched HEAD; each patch must apply on its own to a clean tree with `git apply`)
   demo_<k>.py
   meta_<k>.json    with keys: property (\"{pid}\"), summary (one sentence: what was changed), needs (what specific condition is required for the breakage to manifest), ran (the commands you ran to confirm: tests pass with the change, demo fails with the change, demo passes without it)
 
-Procedure per change: edit, run the test suite, run the demo against the changed tree (must fail), save the diff, then `git -C /tmp/seed/wt_{pid} checkout -- .` to restore and run the demo against the clean tree (must pass). Leave the worktree clean (no uncommitted changes) when you finish. Use /venv/bin/python (Python 3.12). Be careful with anything that can loop forever: run demos under `timeout 60`.
+Procedure per change: edit, run the test suite, run the demo against the changed tree (must fail), save the diff, then `git -C /tmp/seed/wt_{pid}{sfx} checkout -- .` to restore and run the demo against the clean tree (must pass). Leave the worktree clean (no uncommitted changes) when you finish. Use /venv/bin/python (Python 3.12). Be careful with anything that can loop forever: run demos under `timeout 60`.
 
 Final answer: a short list of the changes you produced and the result of each confirmation step. Be honest if you could not produce one.""")
